@@ -142,12 +142,69 @@ def pipeline : P String := do
     | .error e => "E " ++ e
   pure (" ".intercalate (List.zipWith line outs srcs))
 
+/-! several HomogenizationModel objects and their parameter objects (Homog.runM, the code: a model built
+without parameters allocates its own object) -/
+
+def setting : P (Setting Nat Float) := do
+  let k ← nat
+  match k with
+  | 0 => do
+    let r ← nat
+    match ruleOf r with
+    | some rule => pure (.rule rule)
+    | none => failure
+  | 1 => do let n ← flt; pure (.factor n)
+  | 2 => do let p ← post; pure (.post p)
+  | 3 => do let e ← flt; pure (.eps e)
+  | _ => failure
+
+def point : P (Point Nat Float) := do
+  let stable ← lst nat; let rows ← lst flts; let fr ← flts
+  pure { stable := stable, mob := rows, fr := fr }
+
+def mop : P (MOp Nat Float) := do
+  let k ← nat
+  match k with
+  | 0 => do let c ← cfg; let e ← flt; pure (.newParams { cfg := c, eps := e })
+  | 1 => do
+    let h ← nat
+    match h with
+    | 0 => pure (.newModel none)
+    | _ => do let pid ← nat; pure (.newModel (some pid))
+  | 2 => do let mid ← nat; let s ← setting; pure (.set mid s)
+  | 3 => do let pid ← nat; let s ← setting; pure (.setP pid s)
+  | 4 => do let mid ← nat; let pts ← lst point; pure (.eval mid pts)
+  | _ => failure
+
+def ruleId : Rule → Nat
+  | .wienerUpper => 0 | .wienerLower => 1 | .hashinUpper => 2 | .hashinLower => 3 | .labyrinth => 4
+
+def postOut : Post Nat → String
+  | .none => "0"
+  | .predefined a => "1 " ++ toString a
+  | .majority => "2"
+  | .exclude xs => " ".intercalate ("3" :: toString xs.length :: xs.map toString)
+
+/-- homog.objects  db(nats) eps0 ops(list of: 0 cfg eps | 1 0 | 1 1 pid | 2 mid setting | 3 pid setting | 4 mid points…)
+    → per eval `R k rows…` or `E <error>`, then `M models(pids)… P k (rule n eps post)…` = the store at the end -/
+def objects : P String := do
+  let db ← lst nat; let eps0 ← flt; let ops ← lst mop
+  let r := runM pw tiny big eps0 db none (initStore eps0 none) ops
+  let os := r.2.map (fun o => match o with
+    | .ok vs => " ".intercalate (["R", toString vs.length] ++ vs.map flist)
+    | .error e => "E " ++ e)
+  let ms := r.1.models.map toString
+  let ps := r.1.params.map (fun p =>
+    " ".intercalate [toString (ruleId p.cfg.rule), fout p.cfg.n, fout p.eps, postOut p.cfg.post])
+  pure (" ".intercalate (os ++ ["M", toString ms.length] ++ ms ++ ["P", toString ps.length] ++ ps))
+
 def handle (verb : String) : Option (P String) :=
   match verb with
   | "homog.rules" => some rules
   | "homog.clip" => some clip
   | "homog.history" => some history
   | "homog.pipeline" => some pipeline
+  | "homog.objects" => some objects
   | _ => none
 
 end KawinV.Drv.C17
